@@ -12,8 +12,9 @@ from harness.core import Machinery
 
 NAMES = ['a', 'b', 'c', 'd']
 KINDS = ['try_none', 'try_zero', 'try_back', 'kwargs_support', 'cache', 'loops', 'pd2np']
-BIND_KINDS = KINDS + ['try_list']                   # try_list: a mutable fallback (the caller mutates what it is given)
-CLASS_OF = {'try_none': 'try_value', 'try_zero': 'try_value', 'try_list': 'try_value'}
+BIND_KINDS = KINDS + ['try_list', 'pd2np_exc']      # try_list: a mutable fallback (the caller mutates what it is given)
+PD2NP_EXC = ["l", [["s", "a"], ["s", "b"], ["s", "x"]]]   # pd2np(exc = ['a', 'b', 'x'])
+CLASS_OF = {'try_none': 'try_value', 'try_zero': 'try_value', 'try_list': 'try_value', 'pd2np_exc': 'pd2np'}
 NONE = ["n", 0]
 DEFAULTS = {False: {'a': 'da', 'b': 'db', 'c': 'dc', 'd': 'dd'}, True: {'a': 'ea', 'b': 0, 'c': 'ec', 'd': None}}
 MARK = 'the caller owns its result'
@@ -130,11 +131,16 @@ def decorator(layer):
         if k not in _DECOS:
             _DECOS[k] = try_value(value=untagx(par))
         return _DECOS[k]
+    if cls == 'pd2np' and par != NONE:
+        k = 'pd2np' + json.dumps(par)
+        if k not in _DECOS:
+            _DECOS[k] = P.pd2np(exc=untagx(par))
+        return _DECOS[k]
     return {'try_back': P.try_back, 'kwargs_support': P.kwargs_support, 'cache': cache, 'loops': pyg.loops, 'pd2np': P.pd2np}[cls]
 
 
 def layer_of(kind):
-    return [CLASS_OF.get(kind, kind), ["i", 0] if kind == 'try_zero' else ["l", []] if kind == 'try_list' else NONE]
+    return [CLASS_OF.get(kind, kind), {'try_zero': ["i", 0], 'try_list': ["l", []], 'pd2np_exc': PD2NP_EXC}.get(kind, NONE)]
 
 
 def project(o, f):
@@ -145,7 +151,8 @@ def project(o, f):
     while isinstance(o, wrapper):
         n = type(o).__name__
         n = names.get(n, n)
-        chain.append([n, tagx(dict.get(o, 'value')) if n == 'try_value' else NONE])
+        par = tagx(dict.get(o, 'value')) if n == 'try_value' else tagx(list(dict.get(o, 'exc'))) if n == 'pd2np' and dict.get(o, 'exc') else NONE
+        chain.append([n, par])
         o = dict.get(o, 'function')
     if o is not f:
         chain.append(['<not the base function>', NONE])
@@ -413,7 +420,8 @@ def s2c_memo(ctx, rep, cases):
 # ------------------------------------------------------------------------------------------------
 EXTRA_KW = ['x', 'y', 'z', 'w', 'value', 'types']
 EXTRA_LAYERS = [['try_value', ["s", "failed"]], ['try_value', ["t", [["i", 1], ["i", 2]]]], ['try_value', ["i", 7]],
-                ['try_value', ["l", []]], ['try_value', ["l", [["i", 1]]]], ['try_value', ["m", [["words", ["i", 0]]]]]]   # mutable fallbacks
+                ['try_value', ["l", []]], ['try_value', ["l", [["i", 1]]]], ['try_value', ["m", [["words", ["i", 0]]]]],   # mutable fallbacks
+                ['pd2np', PD2NP_EXC], ['pd2np', ["l", [["s", "c"], ["s", "y"], ["s", "value"]]]]]            # pd2np(exc = [...])
 
 
 def rand_sig(rng):
@@ -482,7 +490,7 @@ def observe_bind(rng):
     except Exception as e:
         o['cwc'] = ["exc", type(e).__name__]
     layers = []
-    for layer in [layer_of(k) for k in BIND_KINDS] + [rng.choice(EXTRA_LAYERS)]:
+    for layer in [layer_of(k) for k in BIND_KINDS] + [rng.choice(EXTRA_LAYERS), EXTRA_LAYERS[-1]]:
         w = decorator(layer)(f)
         rec = {'layer': layer, 'out': (outcome if layer[0] == 'cache' else call_and_mutate)(w, *args, **kwargs), 'argspec': argspec_of(w),
                'gca': outcome(P.getcallargs, w, *args, **kwargs)}
@@ -524,7 +532,7 @@ def observe_hist(rng, nmax):
 def memo_value(rng, depth=0):
     r = rng.random()
     if r < 0.3 or depth >= 2:
-        return ["i", rng.randint(0, 3)]
+        return ["i", rng.randint(-2, 3)]                      # -1 and -2: distinct values with one hash in CPython
     if r < 0.45:
         return ["s", rng.choice(['u', 'v', '1'])]
     if r < 0.5:
